@@ -5,6 +5,8 @@ all interleavings of pacer ticks, completions, consumption, Stop calls, pacer-st
 and targeter errors; any initial/max worker counts; no depth bound.
 -/
 import Vegeta.Proofs.AttackInv
+import Vegeta.Model.Pump
+import Vegeta.Extracted.Facts
 namespace Vegeta.Props.C02
 open Vegeta.Model.Attack Vegeta.Proofs.Attack
 
@@ -145,5 +147,67 @@ example : Reachable 1 2 0 ((run (init 1 2 0) (demoTrace.take 18)).getD default) 
     | some s' => exact ⟨s', rfl⟩
   obtain ⟨s', hs'⟩ := this
   rw [hs']; exact aux_run_reachable 1 2 0 _ _ _ Reachable.init hs'
+
+/-! #### source fact (binding): `Stop` has the shape the model's atomic `stop` step assumes -/
+
+def bytesOf (s : String) : List Nat := s.toUTF8.toList.map (·.toNat)
+
+/-- `Stop` is: a local flag; `once.Do(func(){ close(stopch); flag = true })`; `return flag`.
+The return value is decided inside the `sync.Once` function, so callers are serialised and
+exactly the closing call reports `true` — which is what `doStop` models as one step. -/
+theorem facts_stop_shape : Vegeta.Extracted.stopShape =
+    [[97, 115, 115, 105, 103, 110, 32, 115, 116, 111, 112, 112, 101, 100],
+     [111, 110, 99, 101, 46, 68, 111, 123, 99, 97, 108, 108, 32, 99, 108, 111, 115, 101, 59, 97, 115, 115, 105, 103, 110, 32, 115, 116, 111, 112, 112, 101, 100, 125],
+     [114, 101, 116, 117, 114, 110]] := by decide
+
+/-! #### the CLI result pump (`processAttack`, attack.go) -/
+
+def PumpInv (p : Vegeta.Model.Pump.St) : Prop :=
+  ∃ k, p.encoded = (List.range k).reverse ∧ k ≤ p.arrived ∧ (p.ret = .running → k = p.arrived)
+
+open Vegeta.Model.Pump in
+theorem aux_pump_step (p : Vegeta.Model.Pump.St) (ev : Ev) (h : PumpInv p) : PumpInv (Vegeta.Model.Pump.step p ev) := by
+  obtain ⟨k, hk, hle, hrun⟩ := h
+  unfold Vegeta.Model.Pump.step
+  by_cases hr : p.ret = .running
+  · have hka := hrun hr
+    simp only [hr, ne_eq, not_true_eq_false, ↓reduceIte]
+    cases ev with
+    | e => exact ⟨k, hk, hle, fun _ => hka⟩
+    | s =>
+      by_cases hc : p.stopClosed = true
+      · simp only [hc, ↓reduceIte]; exact ⟨k, hk, hle, by simp⟩
+      · simp only [hc, Bool.false_eq_true, ↓reduceIte]; exact ⟨k, hk, hle, fun _ => hka⟩
+    | c => exact ⟨k, hk, hle, by simp⟩
+    | r =>
+      by_cases hf : p.failNext = true
+      · simp only [hf, ↓reduceIte]; exact ⟨k, hk, by simp; omega, by simp⟩
+      · simp only [hf, Bool.false_eq_true, ↓reduceIte]
+        refine ⟨k + 1, ?_, by simp; omega, fun _ => by simp; omega⟩
+        simp only [List.range_succ, List.reverse_append, List.reverse_cons, List.reverse_nil, List.nil_append,
+          List.singleton_append, hk, hka]
+  · simp only [ne_eq, hr, not_false_eq_true, ↓reduceIte]
+    exact ⟨k, hk, hle, fun h => absurd h hr⟩
+
+open Vegeta.Model.Pump in
+/-- **The pump writes every result that arrives while it is running exactly once and in order**:
+whatever the script of arrivals, signals, closes and encode failures, the written sequence
+numbers are `0, 1, …, k-1` for some `k ≤` number of arrivals (newest first in the model), and
+while the pump is still running nothing that arrived is missing (`k` = number of arrivals). -/
+theorem pump_encodes_each_result_once_in_order (evs : List Ev) : PumpInv (runScript evs) := by
+  have gen : ∀ (evs : List Ev) (p : Vegeta.Model.Pump.St), PumpInv p → PumpInv (evs.foldl Vegeta.Model.Pump.step p) := by
+    intro evs
+    induction evs with
+    | nil => intro p h; exact h
+    | cons ev evs ih => intro p h; exact ih _ (aux_pump_step p ev h)
+  exact gen evs Vegeta.Model.Pump.init ⟨0, rfl, Nat.le_refl _, fun _ => rfl⟩
+
+open Vegeta.Model.Pump in
+/-- **A first signal keeps draining** (the attack is stopped, results keep being written);
+**a second signal ends the pump.** -/
+theorem pump_two_stage_signal :
+    (runScript [.r, .s, .r, .r]).ret = .running ∧ (runScript [.r, .s, .r, .r]).encoded = [2, 1, 0] ∧
+    (runScript [.r, .s, .r, .r]).stopClosed = true ∧
+    (runScript [.r, .s, .s, .r]).ret = .nil ∧ (runScript [.r, .s, .s, .r]).encoded = [0] := by decide
 
 end Vegeta.Props.C02
